@@ -38,6 +38,8 @@ pub enum Case {
     Matcher { rx: Rx, render: u8, vocab: VocabSpec, calls: Vec<Call> },
     Loop { rx: Rx, render: u8, vocab: VocabSpec, ff: bool, calls: Vec<Call> },
     Stop { vocab_extra: Vec<B>, stop_strings: Vec<String>, stop_regex: Option<String>, stop_tokens: Vec<u8>, text: String, cuts: Vec<u16>, specials_at: Vec<(u16, u8)> },
+    /// arbitrary byte tokens (any byte, so also text that is not UTF-8) through a StopController: it must not panic
+    StopBytes { stop_strings: Vec<String>, stop_regex: Option<String>, bytes: B },
 }
 
 pub struct C18;
@@ -906,6 +908,12 @@ impl Prop for C18 {
             3 => rxg.clone().prop_map(|(rx, render, vocab, calls)| Case::Matcher { rx, render, vocab, calls }),
             3 => (rxg, any::<bool>()).prop_map(|((rx, render, vocab, calls), ff)| Case::Loop { rx, render, vocab, ff, calls }),
             3 => stopc.prop_map(|(vocab_extra, stop_strings, stop_regex, stop_tokens, text, cuts, specials_at)| Case::Stop { vocab_extra, stop_strings, stop_regex, stop_tokens, text, cuts, specials_at }),
+            1 => (
+                proptest::collection::vec(prop_oneof![Just("abc"), Just("é€"), Just("STOP")].prop_map(|s: &str| s.to_string()), 0..3),
+                proptest::option::weighted(0.7, prop_oneof![Just("[0-9]{2}"), Just("x|bc"), Just("é+"), Just("STO?P")].prop_map(|s: &str| s.to_string())),
+                proptest::collection::vec(prop_oneof![4 => any::<u8>(), 2 => Just(b'a'), 1 => Just(0x80u8), 1 => Just(0xC3u8), 1 => Just(0xA9u8), 1 => Just(b'x')], 1..24),
+            )
+                .prop_map(|(stop_strings, stop_regex, bytes)| Case::StopBytes { stop_strings, stop_regex, bytes: B(bytes) }),
         ]
         .boxed()
     }
@@ -914,6 +922,35 @@ impl Prop for C18 {
             Case::Matcher { rx, render, vocab, calls } => self.run_matcher(rx, *render, vocab, calls, ctx),
             Case::Loop { rx, render, vocab, ff, calls } => self.run_loop(rx, *render, vocab, *ff, calls, ctx),
             Case::Stop { vocab_extra, stop_strings, stop_regex, stop_tokens, text, cuts, specials_at } => self.run_stop(vocab_extra, stop_strings, stop_regex, stop_tokens, text, cuts, specials_at, ctx),
+            Case::StopBytes { stop_strings, stop_regex, bytes } => {
+                let vocab = match VocabSpec::byte().build() {
+                    Ok(v) => v,
+                    Err(_) => return Ok(()),
+                };
+                let mut sc = match StopController::new(vocab.env.clone(), vec![], stop_regex.clone(), stop_strings.clone()) {
+                    Ok(s) => s,
+                    Err(_) => return Ok(()),
+                };
+                ctx.class("kind:stop_controller_raw_bytes");
+                for (i, b) in bytes.0.iter().enumerate() {
+                    if sc.is_stopped() {
+                        break;
+                    }
+                    let r = std::panic::catch_unwind(std::panic::AssertUnwindSafe(|| sc.commit_token(*b as u32)));
+                    ctx.eval(1);
+                    if *b >= 0x80 {
+                        ctx.nontrivial(Fnv::new().bytes(&bytes.0[..=i]).str(&format!("{:?}{:?}", stop_regex, stop_strings)).finish());
+                    }
+                    match r {
+                        Err(_) => {
+                            return ctx.fail("C18/stop-controller-panicked", || format!("stops {:?}/{:?}: commit_token panicked on byte token {:#04x} after bytes {:?}", stop_strings, stop_regex, b, esc(&bytes.0[..i])));
+                        }
+                        // the returned text is a lossy decoding (U+FFFD for bytes that are not UTF-8): its length says nothing
+                        Ok(_) => {}
+                    }
+                }
+                Ok(())
+            }
         }
     }
 }
